@@ -129,7 +129,9 @@ theorem silentG_load (hp : MethodPred p) (hx : ExclCore p) (env : Env) (buf : Li
 
 theorem silentG_query (hp : MethodPred p) (hq : Excl p .query) (env : Env) : Silent p (query env) := by
   unfold query
-  exact silent_dep fun s0 => Silent.seq (silent_deliver hp env .query hq 255 {} {}) (silent_deliver hp env .query hq _ {} {})
+  generalize headFirst Method.query = hfq
+  cases hfq <;> simp only [if_true, if_false, Bool.false_eq_true] <;>
+  exact silent_dep fun s0 => Silent.seq (silent_deliver hp env .query hq _ {} {}) (silent_deliver hp env .query hq _ {} {})
 
 theorem silentG_extChange (hp : MethodPred p) (env : Env) (d : Nat) (q : Option Nat) : Silent p (extChange env d q) :=
   fun _ => filter_logEv hp env _ _
